@@ -317,31 +317,31 @@ impl<U> NumDecompressor<U> where U: UnsignedLike {
     } else {
       self.decompress_unsigneds_limited_dirty::<TrivialGcdOp>(reader, limit, error_on_insufficient_data)
     };
-    match &res {
-      Ok(numbers) => {
-        self.state.n_processed += numbers.unsigneds.len();
-
-        if numbers.finished_chunk_body {
-          reader.drain_empty_byte(|| QCompressError::corruption(
-            "nonzero bits in end of final byte of chunk numbers"
-          ))?;
+    let res = res.and_then(|numbers| {
+      if numbers.finished_chunk_body {
+        reader.drain_empty_byte(|| QCompressError::corruption(
+          "nonzero bits in end of final byte of chunk numbers"
+        ))?;
+      }
+      let bits_processed = self.state.bits_processed + reader.bit_idx() - initial_reader.bit_idx();
+      if numbers.finished_chunk_body {
+        let compressed_body_bit_size = self.compressed_body_size * 8;
+        if compressed_body_bit_size != bits_processed {
+          return Err(QCompressError::corruption(format!(
+            "expected the compressed body to contain {} bits but instead processed {}",
+            compressed_body_bit_size,
+            bits_processed,
+          )));
         }
-        self.state.bits_processed += reader.bit_idx() - initial_reader.bit_idx();
-        if numbers.finished_chunk_body {
-          let compressed_body_bit_size = self.compressed_body_size * 8;
-          if compressed_body_bit_size != self.state.bits_processed {
-            return Err(QCompressError::corruption(format!(
-              "expected the compressed body to contain {} bits but instead processed {}",
-              compressed_body_bit_size,
-              self.state.bits_processed,
-            )));
-          }
-        }
-      },
-      Err(_) => {
-        *reader = initial_reader;
-        self.state = initial_state;
-      },
+      }
+      self.state.n_processed += numbers.unsigneds.len();
+      self.state.bits_processed = bits_processed;
+      Ok(numbers)
+    });
+    if res.is_err() {
+      // also covers the errors of the final checks above
+      *reader = initial_reader;
+      self.state = initial_state;
     }
     res
   }
